@@ -107,6 +107,53 @@ impl Term {
     }
 }
 
+// private-use characters: they mark, in printed expressions, the placeholders standing for
+// parameters without a value
+const PARAMETER_VARIABLE: char = '\u{E000}';
+const PARAMETER_KEY: char = '\u{E001}';
+
+/// `$<mark>{name}` and `"<mark>{name}<mark>"` back to `{name}`
+pub(super) fn remove_parameter_placeholders(printed: &str) -> String {
+    printed
+        .replace(&format!("${PARAMETER_VARIABLE}"), "")
+        .replace(&format!("\"{PARAMETER_KEY}"), "")
+        .replace(&format!("{PARAMETER_KEY}\""), "")
+}
+
+impl Term {
+    /// replaces parameters that have no value yet by terms that have a Datalog form and
+    /// print as `{name}` once `remove_parameter_placeholders` went over the text
+    pub(super) fn with_parameter_placeholders(self) -> Term {
+        match self {
+            Term::Parameter(name) => Term::Variable(format!("{PARAMETER_VARIABLE}{{{name}}}")),
+            Term::Set(s) => Term::Set(
+                s.into_iter()
+                    .map(Term::with_parameter_placeholders)
+                    .collect(),
+            ),
+            Term::Array(a) => Term::Array(
+                a.into_iter()
+                    .map(Term::with_parameter_placeholders)
+                    .collect(),
+            ),
+            Term::Map(m) => Term::Map(
+                m.into_iter()
+                    .map(|(key, term)| {
+                        let key = match key {
+                            MapKey::Parameter(name) => {
+                                MapKey::Str(format!("{PARAMETER_KEY}{{{name}}}{PARAMETER_KEY}"))
+                            }
+                            key => key,
+                        };
+                        (key, term.with_parameter_placeholders())
+                    })
+                    .collect(),
+            ),
+            term => term,
+        }
+    }
+}
+
 #[derive(Debug, Clone, PartialEq, Eq, PartialOrd, Ord, Hash)]
 pub enum MapKey {
     Integer(i64),
